@@ -144,6 +144,10 @@ func validateRange(e *Expression) (err error) {
 		return errors.New("RANGE validation: range boundary must have a maximum")
 	}
 
+	if !isLiteralExpr(boundary.Min) || !isLiteralExpr(boundary.Max) {
+		return errors.New("RANGE validation: range boundaries must be literals")
+	}
+
 	return nil
 }
 
